@@ -148,7 +148,7 @@ def run(tier: str, seed: int) -> core.Report:
     rep = core.Report(PROP, tier, seed)
     cfg = open(tlc.SPECS / "MC_Cur.cfg").read()
     if tier == "thorough":
-        cfg = cfg.replace("MaxDepth = 2", "MaxDepth = 3").replace("MaxCtx = 3", "MaxCtx = 4")
+        cfg = cfg.replace("MaxCtx = 3", "MaxCtx = 4")
     res = tlc.run("MC_Cur", cfg_text=cfg, workers=core.NCPU, big=True, heap="12g", timeout=3000, check=False)
     if res.error or res.invariant_violated:
         raise core.MachineryError(f"Cur.tla: {res.invariant_violated or res.error}\n{res.out[-1500:]}")
@@ -184,7 +184,7 @@ def run(tier: str, seed: int) -> core.Report:
     if not need <= set(hits) and not rep.violations:
         raise core.MachineryError(f"vacuous: monitor clauses never exercised: {sorted(need - set(hits))}")
     rep.distinct_nontrivial = len({json.dumps(h) for h in behaviours if len({s["t"] for s in h}) >= 2})
-    rep.rule = (f"every transition of the bounded Cur graph ({res.distinct} configurations of <= 3 tasks, nesting <= {2 if tier == 'quick' else 3}) with a path to it "
+    rep.rule = (f"every transition of the bounded Cur graph ({res.distinct} configurations of <= 3 tasks, nesting <= 3) with a path to it "
                 "= one behaviour, executed on asyncio and trio with one real task per specification task; current_context() of every task observed "
                 "after every step; non-trivial = behaviours involving at least two tasks; distinct by step sequence")
     rep.extra.update({"behaviours": len(behaviours), "monitor_hits": dict(hits), "executions_with_unexpected_driver_events": crashes})
